@@ -54,8 +54,10 @@ def one_case(rng, tier):
         for _ in range(n):
             t += rng.choice([0, 0, 0.25, 0.5, 1.0, 1.0, 2.0, 3.0])
             ops.append([round(t, 3), rng.choice(['start', 'stop', 'stop', 'start', 'stopstart'])])
+    n_items = rng.randrange(3, 12)
+    none_at = sorted(rng.sample(range(n_items), rng.choice([1, 2]))) if rng.random() < 0.3 else []
     return {'kind': kind, 'poll': poll, 'svc': svc, 'sink': rng.choice(['sync', 'coro']), 'ops': ops,
-            'n_items': rng.randrange(3, 12), 'start_at_0': True}
+            'n_items': n_items, 'start_at_0': True, 'none_at': none_at}
 
 
 def check_case(case, counters, sets):
@@ -75,6 +77,9 @@ def check_case(case, counters, sets):
             counter = {'n': 0}
             if kind in ('from_iterable', 'from_iterable_list'):
                 items = list(range(case['n_items']))
+                for pos in case.get('none_at', []):
+                    if pos < len(items):
+                        items[pos] = None            # a perfectly legal item
                 src = Stream.from_iterable(iter(items) if kind == 'from_iterable' else items, asynchronous=True)
             elif kind == 'from_periodic':
                 def cb():
@@ -237,13 +242,25 @@ def check_case(case, counters, sets):
                 add('C18:cycle-begun-while-stopped@%s' % kind, 'a polling loop %s at t=%s while the source was stopped' % (what, e[1]))
     counters['cycles_attributed_to_runs'] = counters.get('cycles_attributed_to_runs', 0) + n_attr
     delivered = [e[4] for e in ev if e[2] == 'CALLED']
-    nums = [int(os.path.basename(x).split('.')[0]) if kind == 'filenames' else int(x) for x in delivered]
+    if kind in ('from_iterable', 'from_iterable_list') and case.get('none_at'):
+        # items are identified by position: map what was delivered back onto the iterable (in-order subsequence)
+        nums, p = [], 0
+        for x in delivered:
+            while p < len(items) and not (items[p] is x or (items[p] is not None and items[p] == x)):
+                p += 1
+            nums.append(p if p < len(items) else -1)
+            p += 1
+        if -1 in nums and kind == 'from_iterable':
+            add('C18:duplicate-or-out-of-order@%s' % kind, 'iterable %r, delivered %r' % (items, delivered))
+            nums = [n_ for n_ in nums if n_ >= 0]
+    else:
+        nums = [int(os.path.basename(x).split('.')[0]) if kind == 'filenames' else int(x) for x in delivered]
     if kind != 'from_iterable_list' and any(b <= a for a, b in zip(nums, nums[1:])):
         add('C18:duplicate-or-out-of-order@%s' % kind, 'delivered %s' % nums[:40])
     if kind == 'from_iterable_list' or (kind == 'from_iterable' and not any(op in ('stop', 'stopstart') for _, op in case['ops'])):
         counters['exactness_runs'] = counters.get('exactness_runs', 0) + 1
-        if nums != list(range(case['n_items'])):
-            add('C18:from_iterable-not-exact', 'iterable %s, delivered %s' % (list(range(case['n_items'])), nums))
+        if nums != list(range(case['n_items'])) or len(delivered) != case['n_items']:
+            add('C18:from_iterable-not-exact', 'iterable %r, delivered %r' % (items, delivered))
         # END(k) before CALLED(k+1)
         open_ = 0
         for e in ev:
